@@ -602,20 +602,20 @@ static Result exec_c03_c05(MVal& plan, Stats& st) {
         else for (size_t cap : {(size_t)0, (size_t)1, (size_t)4095, (size_t)16383, (size_t)16384, (size_t)16385, (size_t)32768, total / 2, total - 1}) if (cap < total) caps.push_back(cap);
         if (sink_only) { caps.clear(); caps.push_back((size_t)sink_only->getu("cap")); }
         for (size_t cap : caps) { if (!R.res.ok) break;
-            for (int kind = 1; kind <= 2; ++kind) {
+            for (int kind = 1; kind <= 4; ++kind) {     // 1: short write, 2: streambuf throws, 3 and 4: the same with os.exceptions(badbit | failbit)
                 if (sink_only && (int)sink_only->getu("kind") != kind) continue;
                 if (!R.want()) continue;
                 if (R.only_exec) { MVal pub = sink_plan0; sink_narrow(pub, big, cap, kind); publish_plan(pub); }
                 uint64_t blocks0 = ledger::live_blocks();
                 Outcome o = R.api.encode_to_sink(text, cap, kind, plan.getu("variant"));
                 uint64_t blocks1 = ledger::live_blocks();       // before any harness bookkeeping allocates
-                st.inc("executions"); st.inc("exec.sink"); st.inc("faults.sink_failure_fired", o.stream_failed);
-                if (!o.violation.empty() && !(kind == 2 && o.violation.find("runtime_error") != std::string::npos)) R.fail(o.violation, o.vdetail + " (sink capacity " + std::to_string(cap) + ")", "sink", dd);
+                st.inc("executions"); st.inc("exec.sink"); st.inc("faults.sink_failure_fired", o.stream_failed); if (kind > 2 && (o.stream_failed || !o.violation.empty())) st.inc("faults.sink_failure_with_stream_exceptions");   // the exception leaves before stream_failed is recorded
+                if (!o.violation.empty() && !((kind == 2 || kind == 4) && o.violation.find("runtime_error") != std::string::npos) && !(kind >= 3 && o.violation.find("ios_failure") != std::string::npos) && !(kind >= 3 && o.violation.find("ios_base7failure") != std::string::npos)) R.fail(o.violation, o.vdetail + " (sink capacity " + std::to_string(cap) + ")", "sink", dd);
                 else if (o.error.empty() && o.stream_failed && o.events == "good") R.fail("sink-failure-unreported", "sink accepted only " + std::to_string(cap) + " of " + std::to_string(total) + " bytes but the stream still reports good()", "sink", dd);
                 uint64_t own = 0; for (const std::string* s : {&o.events, &o.error, &o.violation, &o.vdetail}) if (s->capacity() > 15) ++own;
                 if (R.res.ok && blocks1 != blocks0 + own) R.fail("leak", std::to_string((long long)blocks1 - (long long)blocks0 - (long long)own) + " block(s) still allocated after encoding into a failing sink", "sink", dd);
                 if (!R.res.ok) { plan = sink_plan0; sink_narrow(plan, big, cap, kind); }     // R.fail narrowed to the input bytes; a sink run needs the document
-                st.nontrivial(mix3(fnv1a(R.fmt + "sink"), cap * 4 + (uint64_t)kind, fnv1a(text)));
+                st.nontrivial(mix3(fnv1a(R.fmt + "sink"), cap * 8 + (uint64_t)kind, fnv1a(text)));
             }
         }
     }
